@@ -100,7 +100,7 @@ impl World {
     pub fn real_apply(&self, s: &FileState, a: &Act) -> Result<FileState, String> {
         let inp = scratch::path("c10_in.skf");
         let out = scratch::path("c10_out.skf");
-        s.write(&inp);
+        s.write_rot(&inp, s.natural_rot());
         let _ = std::fs::remove_file(&out);
         match a {
             Act::MergeAfter(i) => ops::op_merge(&[inp.clone(), self.start_paths[*i].clone()], &out)?,
